@@ -77,6 +77,11 @@ Theorem C18_agree_implies_prop : forall i o, agree_C18 i o = true -> kf_C18 i = 
 Proof. exact agree_implies_prop_C18. Qed.
 Print Assumptions C18_agree_implies_prop.
 
+(* Central theorem: on every input outside the two finding classes the model's answer satisfies the property. *)
+Theorem C18_prop_of_model : forall i, kf_C18 i = 0 -> prop_C18 i (run_C18 i) = true.
+Proof. exact prop_C18_of_model. Qed.
+Print Assumptions C18_prop_of_model.
+
 (* Non-vacuity *)
 Example C18_ex_host : forall x,
   option_map (fun c => cond_match x c {| r_host := [69;120;46;99;111;109;58;56;48]; r_hosttag := []; r_secure := false;
